@@ -1,7 +1,7 @@
 #!/bin/sh
 # tryseed.sh <seed id | patch file> <check> [more checks]: run checks on a scratch copy of /repo with the change applied
 s=$1; shift
-p=$s; [ -f "$p" ] || p=/verif/seeded/$s/patch.diff
+p=$s; [ -f "$p" ] && p=$(readlink -f "$p") || p=/verif/seeded/$s/patch.diff
 d=$(mktemp -d /tmp/tryseed.XXXXXX)
 cp -r /repo/flowdyn $d/ && (cd $d && patch -p1 -s -i $p) || { echo "patch failed"; rm -rf $d; exit 3; }
 for c in "$@"; do
